@@ -139,7 +139,7 @@ Section WithE.
     intros Hn Hw Hs0 Hf Hgf Hm Ht Hc Hl.
     rewrite print_expr_step, value_expr_step. (norm_app; cbn [app]).
     unfold p_step.
-    rewrite (name_roundtrip nm fuel _ o b Hn (name_followb_hsp_then w 40 _ Hw eq_refl eq_refl) Hc).
+    rewrite (name_roundtrip nm fuel _ o b Hn (name_followb_hsp_then w 40 _ Hw eq_refl eq_refl eq_refl) Hc).
     rewrite (skip_hsp_then w 40 _ _ b Hw eq_refl), eat_hit.
     rewrite (skip_sp_run s0 _ _ b Hs0 (print_expr_stops_ws first _ Hf)).
     rewrite (Hgf _ _ b (args_follow more trail s1 k Hm Ht)).
@@ -152,17 +152,19 @@ End WithE.
 
 (** ** Shorthand: [(hsp? "," hsp? action)*] *)
 Definition ltr_followb (k : str) : bool :=
-  stopsb (fun c => seg_start c || (c =? 44)) (snd (span is_hsp k)).
+  stopsb (fun c => seg_start c || (c =? 44)) (snd (span is_hsp k)) && naked_stopb k.
 
 Lemma ltr_followb_name k : ltr_followb k = true -> name_followb k = true.
 Proof.
-  unfold ltr_followb, name_followb. destruct (snd (span is_hsp k)) as [|c t]; [reflexivity|].
-  cbn [stopsb]. intro H. apply negb_true_iff in H. apply orb_false_iff in H as [H _]. rewrite H. reflexivity.
+  unfold ltr_followb, name_followb. intro H. apply andb_true_iff in H as [H N0]. apply andb_true_iff. split; [|exact N0].
+  destruct (snd (span is_hsp k)) as [|c t]; [reflexivity|].
+  cbn [stopsb] in *. apply negb_true_iff in H. apply orb_false_iff in H as [H _]. rewrite H. reflexivity.
 Qed.
 
 Lemma no_comma_after_hsp (k : str) o b : ltr_followb k = true -> eat 44 (snd (skip_hsp (mkSt k o b))) = None.
 Proof.
-  unfold ltr_followb, skip_hsp, opt_hsp. cbn [rest]. destruct (span is_hsp k) as [w r]. cbn [snd].
+  unfold ltr_followb, skip_hsp, opt_hsp. cbn [rest]. intro H. apply andb_true_iff in H as [H _]. revert H.
+  destruct (span is_hsp k) as [w r]. cbn [snd].
   destruct r as [|c t]; [reflexivity|]. cbn [stopsb]. intro H. apply negb_true_iff in H.
   apply orb_false_iff in H as [_ H]. apply N.eqb_neq in H. unfold adv. apply eat_miss. exact H.
 Qed.
@@ -178,7 +180,7 @@ Proof.
   cbn [acts_ok forallb fst snd] in Ha. apply andb_true_iff in Ha as [Ha _].
   apply andb_true_iff in Ha as [Ha _]. apply andb_true_iff in Ha as [Hw1 _].
   rewrite print_acts_cons. (norm_app; cbn [app]).
-  apply name_followb_hsp_then; [exact Hw1 | reflexivity | reflexivity].
+  apply name_followb_hsp_then; [exact Hw1 | reflexivity | reflexivity | reflexivity].
 Qed.
 
 Lemma ltr_more_spec : forall acts n fuel acc (kk : str) o b,
@@ -195,7 +197,7 @@ Proof.
     unfold acts_cost in Hc. cbn [fold_right snd] in Hc. fold (acts_cost acts) in Hc.
     rewrite print_acts_cons. (norm_app; cbn [app]).
     destruct (print_name_head nm Hnm) as [c [r [Eh Hco]]].
-    assert (Hstop : stops is_hsp (print_name nm ++ print_acts acts ++ kk)) by (rewrite Eh; exact (opener_not_hsp c Hco)).
+    assert (Hstop : stops is_hsp (print_name nm ++ print_acts acts ++ kk)) by (rewrite Eh; exact (seg_head_not_hsp c Hco)).
     cbn [ltr_more].
     rewrite (skip_hsp_then w1 44 _ o b Hw1 eq_refl). cbn [snd]. rewrite eat_hit.
     rewrite (skip_hsp_run w2 _ _ b Hw2 Hstop). cbn [snd].
@@ -325,7 +327,8 @@ Proof.
           apply expr_followb_ws_closer; [exact (hsp_run_ws w1 Hw1) | left; reflexivity]. }
       rewrite (IH e ltac:(lia) f _ _ b He Hfol) by lia.
       assert (Hlf : ltr_followb (s1 ++ [41] ++ k) = true).
-      { unfold ltr_followb. cbn [app]. apply followb_ws_then; [exact Hs1 | reflexivity | | reflexivity].
+      { unfold ltr_followb. cbn [app]. apply andb_true_iff. split; [|apply naked_stopb_ws_then; [exact Hs1 | reflexivity]].
+        apply followb_ws_then; [exact Hs1 | reflexivity | | reflexivity].
         intros d Hd _. pose proof (ws_plain d Hd) as P. plain_split P.
         apply negb_true_iff in P, P4. rewrite P, P4. reflexivity. }
       rewrite (ltr_more_spec acts f f _ (s1 ++ [41] ++ k) _ b Hacts Hlf);
